@@ -418,7 +418,7 @@ def restore_concrete(p, m):
     precs = []
     if m and 'P0' in m and 1 <= m['P0'] <= 2000:
         precs.append(m['P0'])
-    precs += [101, 40, 167]
+    precs += [101, 40, 167, 6]          # 6: entry precisions below the bit size of ordinary arguments (e.g. mag(100) = 7)
     mode = p.get('mode', 'call')
     t_end = time.time() + p.get('replay_budget_s', 25)
     tried = 0
